@@ -112,3 +112,49 @@ def expected(segments, nl, keep):
             out_verbatim.append(b)
             out_norm.append(normalize(b, nl))
     return {"".join(out_verbatim), "".join(out_norm)}
+
+
+# ------------------------------------------------------------------ escaping modes
+# templates.rst "HTML Escaping" / "Autoescape Overrides": automatic escaping concerns
+# *variables* (expression results); api.rst `finalize`: "process the result of a variable
+# expression before it is output".  The template's own text, comments and raw bodies are none
+# of these, so they arrive verbatim whatever the autoescape setting of the environment, inside
+# `{% autoescape true|false|<expression decided at render time> %}` blocks, and whatever
+# `finalize` callable is configured.
+#
+# block mode -> (open tag, text before the block, text after the block)
+PRE_CTX = "<p class=\"x\">&'"
+POST_CTX = "\"&</p>'\n"
+BLOCKS = {
+    "true": ("{% autoescape true %}", "", ""),
+    "false": ("{% autoescape false %}", "", ""),
+    "rt-true": ("{% autoescape flag %}", "", ""),          # rendered with flag=True
+    "rt-false": ("{% autoescape flag %}", "", ""),         # rendered with flag=False
+    "true+ctx": ("{%autoescape true%}", PRE_CTX, POST_CTX),
+    "rt-true+ctx": ("{% autoescape flag and 1 %}", PRE_CTX, POST_CTX),
+}
+BLOCK_CLOSE = "{% endautoescape %}"
+
+
+def block_flag(block):
+    return block is not None and block.startswith("rt-true")
+
+
+def wrappable(src_tail_text):
+    """The body is followed by the endautoescape tag: its last text must not end in '{'."""
+    return valid_text(src_tail_text, True)
+
+
+def wrap(src, block):
+    if block is None:
+        return src
+    o, pre, post = BLOCKS[block]
+    return pre + o + src + BLOCK_CLOSE + post
+
+
+def wrapped_expected(body_keep_exps, block, nl, keep):
+    """body_keep_exps: acceptable outputs of the body computed with the trailing line break KEPT
+    (inside a block the body's last line break no longer ends the template; the single trailing
+    newline rule applies to the text after the block instead)."""
+    o, pre, post = BLOCKS[block]
+    return {normalize(pre, nl) + e + plain_expected(post, nl, keep) for e in body_keep_exps}
